@@ -14,7 +14,7 @@ RULE = ("for (r, s, n): each sigencode_*_canonize output == plain encoder on (r,
         "verifier). s constructed around n/2: n//2+delta, n//2 +- 2^j for all j, ends, random; all s for small n. "
         "non-trivial key = (encoder, order id, side of n/2, log2|s - n/2| bucket)")
 ASSUMPTIONS = ["plain encoders are judged by C12", "reference verifier vf/ref/ecdsa_ref.py"]
-REQUIRED = {"quick": ["canon.band.high", "canon.band.low", "canon.far.high", "canon.far.low", "canon.small_n", "verify_equiv.high",
+REQUIRED = {"quick": ["reentrant_calls", "canon.band.high", "canon.band.low", "canon.far.high", "canon.far.low", "canon.small_n", "verify_equiv.high",
                       "verify_equiv.low"]}
 EXHAUSTIVE = {"quick": ["all s in [1,n-1] for every n in [2,2^11]"], "thorough": ["all s in [1,n-1] for every n in [2,2^12]"]}
 
